@@ -173,7 +173,13 @@ func (s *streamHTTP) readMsg(c Codec, b []byte) (int, []byte, error) {
 		b = append(b, s.rbuf...)
 		b, n, err := codec.ReadNext(b, s.r, s.opts.maxReceiveMessageSize)
 		if err == io.EOF {
-			s.rEOF, err = true, nil
+			s.rEOF = true
+			switch {
+			case n > 0:
+				err = nil // the last message arrived together with EOF
+			case len(b) > 0:
+				err = io.ErrUnexpectedEOF // the body ended inside a message
+			}
 		}
 		s.rbuf = append(s.rbuf[:0], b[n:]...)
 		return count, b[:n], err
@@ -223,6 +229,9 @@ func (s *streamHTTP) decodeRequestArgs(args proto.Message) (int, error) {
 		count int
 	)
 	count, b, err = s.readMsg(c, b)
+	if err == io.EOF && count == 0 && cur.Descriptor().FullName() == "google.api.HttpBody" {
+		err = nil // an empty upload is still delivered as one empty chunk
+	}
 	if err != nil {
 		return count, err
 	}
